@@ -860,16 +860,22 @@ func (conv *converter) inspectFilterSelector(e ast.Expr) filterExprSelector {
 		e = astutil.Unparen(selector.X)
 	}
 
-	o.path = path
-
+	// The filters are recognized by their selector paths: only the paths that
+	// start at the matcher (m.File(), m["x"].Type) are the DSL ones; the fields
+	// and the methods of other values can have the same names, but not the same types.
+	if id, ok := astutil.Unparen(e).(*ast.Ident); ok && id.Name == conv.group.MatcherName {
+		o.path = path
+		return o
+	}
 	indexing, ok := astutil.Unparen(e).(*ast.IndexExpr)
 	if !ok {
 		return o
 	}
 	mapIdent, ok := astutil.Unparen(indexing.X).(*ast.Ident)
-	if !ok {
+	if !ok || mapIdent.Name != conv.group.MatcherName {
 		return o
 	}
+	o.path = path
 	o.mapName = mapIdent.Name
 	indexString, _ := conv.toStringValue(indexing.Index)
 	o.varName = indexString
